@@ -596,6 +596,22 @@ func (env *cenv) call(e *CExpr) cval {
 			env.fail("inre: %v", err)
 		}
 		return env.boolv(fmt.Sprintf("(str.in_re %s %s)", a.term, re))
+	case "sarr":
+		a := env.eval(args[0])
+		if a.sort != "Slice" {
+			env.fail("sarr of non-slice")
+		}
+		return cval{term: fmt.Sprintf("(sarr %s)", a.term), sort: "Int"}
+	case "iface":
+		// iface(x): the interface value holding pointer x with its static type
+		a := env.eval(args[0])
+		if a.sort == "Iface" {
+			return a
+		}
+		if a.typ == nil || !isPointerLike(a.typ) {
+			env.fail("iface(%s): not a pointer", args[0])
+		}
+		return cval{term: fmt.Sprintf("(mk-iface %d %s)", g.eng.TagOf(a.typ), a.term), sort: "Iface"}
 	case "tagof":
 		a := env.eval(args[0])
 		return env.intv(fmt.Sprintf("(itag %s)", a.term))
